@@ -180,7 +180,11 @@ def decide(case, ctx, c, first):
         if case["kind"] == "wide_approx":
             ok, got = True, want  # the library's enumeration is skipped for this class
         else:
-            ok, got = ctx.call(cg.sat.model_count, c, Aarg)
+            a_passed = dict(Aarg)
+            ok, got = ctx.call(cg.sat.model_count, c, a_passed)
+            if a_passed != Aarg:
+                ctx.violation("model_count_modified_assumptions", f"model_count({A}) changed the caller's assumptions dict to {a_passed}")
+                continue
         if ai == 0 and sp_n <= 6 and case["kind"] != "wide_approx":
             from rv.props._util import repeat_call
 
